@@ -622,7 +622,7 @@ Definition step_C11 (ms : mstate) (o : op) (s : list event * result) : bool :=
   let cl := filter (fun '(i, _) => negb (is_instance_value rs i)) (closed_of (fst s)) in
   (* the harness marks a Close that started while a Close body of a descendant scope (for the provider: of any scope)
      was still in progress by an impossible owner *)
-  forallb (fun '(_, own) => own <? 7000) (closed_of (fst s)) &&
+  forallb (fun '(_, own) => own <? 1000) (closed_of (fst s)) &&
   later_pairs (fun '(i1, o1) '(i2, o2) =>
                  (* same owner: reverse creation order *)
                  (negb (o1 =? o2) || (creation_rank ms'' i2 <? creation_rank ms'' i1))
